@@ -296,6 +296,20 @@ def step (j : Json) : Json :=
         ("metadata", grpJson p.metadata),
         ("imagery", Json.arr (p.imagery.map (fun (n, g) => Json.arr #[Json.str n, imageGroupJson g])).toArray)])]
     | .error e => Json.mkObj [("err", Json.str e.name)]
+  | "product_cached" =>
+    -- ONE cache-first open of a whole product (`Model/ProductCached.lean`) from given index files: result and index files afterwards
+    let fr : FloatRepr := { ofTok := fun t => "!f:" ++ t, mulTok := fun t f => "!fm:" ++ t ++ "*" ++ f, mulInt := fun v f => "!im:" ++ toString v ++ "*" ++ f }
+    let files : Files := (getArr j "files").toList.map (fun f => match f with
+      | .arr xs => (((xs.getD 0 .null).getStr?).toOption.getD "", unhex (((xs.getD 1 .null).getStr?).toOption.getD ""))
+      | _ => ("", []))
+    let caches : Caches := (getArr j "caches").toList.map (fun e => (getStr e "name", ({ loc := optText e "loc", adj := optText e "adj" } : CState)))
+    let use := ((j.getObjValAs? Bool "use").toOption).getD true
+    let create := ((j.getObjValAs? Bool "create").toOption).getD false
+    let (r, c') := openProductCached fr jsonLoads (getStr j "root") files caches use create (getNat j "rpc")
+    let cj := Json.arr (caches.map (fun kv => Json.mkObj [("name", Json.str kv.1), ("loc", textJson (c'.get kv.1).loc), ("adj", textJson (c'.get kv.1).adj)])).toArray
+    match r with
+    | .ok p => Json.mkObj [("ok", Json.arr (p.imagery.map (fun (n, g) => Json.arr #[Json.str n, pyToJson (encodeDoc g)])).toArray), ("caches", cj)]
+    | .error e => Json.mkObj [("err", Json.str e.name), ("caches", cj)]
   | "to_dataset" =>
     let vars := ((j.getObjValAs? (List String) "vars").toOption).getD []
     let attrs : KVs Leaf := (getArr j "attrs").toList.map (fun a => match a with
